@@ -21,7 +21,18 @@ type expect struct {
 	AllowExtra  map[string]bool
 	Dim         string         // dimension vector of the case
 	Input       map[string]any // literal inputs for the witness
+	// TypeDefault is the mode a response of the request's response type takes when the client asks for none ("query"
+	// for code, "fragment" for the token types); Tag names the place of the case (builder function, router:phase:kind)
+	// for the accounting of explicit non-default modes.
+	TypeDefault string
+	Tag         string
+	// Returned: an exported builder handed an error back to its caller instead of answering (nothing to deliver: what
+	// the caller does with the error is judged where a caller of the library's own is driven - the end-to-end fronts)
+	Returned bool
 }
+
+// successParam: names that only a successful authorization response carries
+var successParam = map[string]bool{"code": true, "id_token": true, "access_token": true}
 
 func trunc(s string, n int) string {
 	if len(s) > n {
@@ -68,6 +79,9 @@ func judge(run *ev.Run, exp *expect, d delivery, body string) []string {
 			w["decoded_action"] = d.Form.Action
 			w["decoded_inputs"] = pairsJSON(d.Form.Inputs)
 			w["structure_problems"] = d.Form.Problems
+		case "none":
+			w["location"] = trunc(d.Location, 6000)
+			w["body"] = trunc(body, 2000)
 		}
 		return w
 	}
@@ -81,7 +95,21 @@ func judge(run *ev.Run, exp *expect, d delivery, body string) []string {
 	run.Count("channel", d.Channel)
 	run.Count("channel_by_request", "asked="+orDash(exp.Want)+" delivered="+d.Channel)
 	if d.Channel == "none" {
-		return nil
+		// Nothing was delivered to the redirect URI. The statement speaks of the parameters of an authorization response
+		// OR error arriving there: an answer that tells the user agent "fine" (2xx without the auto-submitting form, a 3xx
+		// without a Location, nothing at all) has lost both - neither the client nor the user learns anything. A 4xx / 5xx
+		// page is the provider telling the user agent that it could not answer the client: counted, not judged (whether a
+		// response had to be possible is not this property).
+		switch {
+		case exp.Returned:
+			run.Count("undelivered", "builder-returned-an-error-to-its-caller")
+		case d.Status >= 400:
+			run.Count("undelivered", fmt.Sprintf("refused-to-the-user-agent:status=%d", d.Status))
+		default:
+			violate("response-lost", "the request was answered with a success / redirect status but neither an authorization response nor an error reaches the redirect URI",
+				fmt.Sprintf("status %d (0 = the handler wrote nothing: net/http answers 200 with an empty body), Location %q, body %q", d.Status, trunc(d.Location, 300), trunc(body, 300)))
+		}
+		return raised
 	}
 	origBase, origQ, _ := splitURL(exp.RedirectURI)
 	origPairs := parsePairs(origQ)
@@ -176,6 +204,36 @@ func judge(run *ev.Run, exp *expect, d delivery, body string) []string {
 			}
 		}
 		resp = d.Form.Inputs
+	}
+
+	// ---- the response mode ----
+	// "in all three response modes: decoding the Location query, the Location fragment, or the form recovers each
+	// value": a client that asked for query or fragment reads exactly that part of the Location - parameters put into
+	// the other part (the default of the response type, say) never reach it. Decided earlier and kept: no mode asked =
+	// nothing to judge; the ERRORS of a form_post request travel by redirect in this library (grey).
+	switch {
+	case exp.Want == "query" || exp.Want == "fragment":
+		if d.Channel != exp.Want {
+			violate("response-mode-not-honoured:asked="+exp.Want, "the client asked for one response mode and the parameters were delivered in another: decoding the part of the response it reads recovers nothing",
+				fmt.Sprintf("response_mode=%s requested, parameters arrive by %s", exp.Want, d.Channel))
+		} else {
+			run.Count("mode", "explicit-"+exp.Want+"-honoured")
+			if exp.TypeDefault != "" && exp.Want != exp.TypeDefault {
+				run.Count("mode", "explicit-non-default-honoured:"+exp.Tag)
+				run.Observed("non-default-mode-judged:" + exp.Tag)
+			}
+		}
+	case exp.Want == "form_post" && d.Channel != "form_post":
+		success := false
+		for _, p := range resp {
+			success = success || successParam[p.K]
+		}
+		if success {
+			violate("response-mode-not-honoured:asked=form_post", "the client asked for form_post and the code / tokens were put into the redirect URL",
+				fmt.Sprintf("response_mode=form_post requested, parameters arrive by %s", d.Channel))
+		} else {
+			grey("error-of-a-form_post-request-delivered-by-redirect")
+		}
 	}
 
 	// ---- the parameters ----
